@@ -540,41 +540,55 @@ def _unroll_comp(eng, e, gens, gi, st, frame):
 
 
 def _bind_generators(eng, gens, st, frame):
-    """Bind each generator variable to a fresh constant; return (bound vars, membership guard, filter guard)."""
+    """Bind each generator variable to a fresh constant; return (bound vars, guard, frame).
+
+    While later generators / filters are evaluated, the guards of the earlier ones are temporarily part of the
+    path condition (so that e.g. `d[k]` for `k in d` is not reported as a possible KeyError)."""
     guards = []
     bound = []
     fr = dict(frame)
-    for gen in gens:
-        it = _eval_pure(eng, gen.iter, st, fr)
-        it = eng.to_smt(it, st)
-        items = concrete_items(eng, it, st)
-        if items is not None:
-            it = eng.to_smt(VList(items), st)
-        tname = ast.unparse(gen.target).replace(" ", "")
-        if isinstance(it, V) and isinstance(it.kind, SetK):
-            # canonical bound-variable names make alpha-equivalent comprehensions syntactically equal
-            x = V(it.kind.elem, z3.Const(f"cv!{tname}!{len(bound)}", it.kind.elem.sort()))
-            guards.append(z3.Select(it.term, x.term))
-            val = x
-            bound.append(x.term)
-        else:
-            seq = sym_sequence(eng, it, st)
-            if seq is None:
-                raise Untranslatable(f"comprehension over {it!r}", gen.iter)
-            n, acc, _ = seq
-            idx = V(INT, z3.Const(f"ci!{tname}!{len(bound)}", z3.IntSort()))
-            guards.append(z3.And(idx.term >= 0, idx.term < n))
-            val = acc(idx.term)
-            bound.append(idx.term)
-        st.frames.append(fr)
-        try:
-            for _ in eng.assign(gen.target, val, st):
-                pass
-            for cond in gen.ifs:
-                c = eng.ev_merged(cond, st, want_bool=True)
-                guards.append(c.term)
-        finally:
-            st.frames.pop()
+    temp = []
+
+    def push(g):
+        guards.append(g)
+        st.pc.append(g)
+        temp.append(g)
+
+    try:
+        for gen in gens:
+            it = _eval_pure(eng, gen.iter, st, fr)
+            it = eng.to_smt(it, st)
+            items = concrete_items(eng, it, st)
+            if items is not None:
+                it = eng.to_smt(VList(items), st)
+            tname = ast.unparse(gen.target).replace(" ", "")
+            if isinstance(it, V) and isinstance(it.kind, SetK):
+                # canonical bound-variable names make alpha-equivalent comprehensions syntactically equal
+                x = V(it.kind.elem, z3.Const(f"cv!{tname}!{len(bound)}", it.kind.elem.sort()))
+                push(z3.Select(it.term, x.term))
+                val = x
+                bound.append(x.term)
+            else:
+                seq = sym_sequence(eng, it, st)
+                if seq is None:
+                    raise Untranslatable(f"comprehension over {it!r}", gen.iter)
+                n, acc, _ = seq
+                idx = V(INT, z3.Const(f"ci!{tname}!{len(bound)}", z3.IntSort()))
+                push(z3.And(idx.term >= 0, idx.term < n))
+                val = acc(idx.term)
+                bound.append(idx.term)
+            st.frames.append(fr)
+            try:
+                for _ in eng.assign(gen.target, val, st):
+                    pass
+                for cond in gen.ifs:
+                    c = eng.ev_merged(cond, st, want_bool=True)
+                    push(c.term)
+            finally:
+                st.frames.pop()
+    finally:
+        ids = {g.get_id() for g in temp}
+        st.pc[:] = [c for c in st.pc if not (c.get_id() in ids and c.get_id() not in st.facts)]
     return bound, z3.And(guards) if guards else z3.BoolVal(True), fr
 
 
@@ -612,15 +626,10 @@ def _symbolic_comp(models, eng, e, st, frame, how):
         return r
     # filtered / nested: characterise membership only (order and multiplicity abstracted)
     y = z3.Const(fresh_name("y"), es)
-    src = z3.Function(fresh_name("compsrc"), z3.IntSort(), *[b.sort() for b in bound]) if False else None
-    q = z3.Const(fresh_name("q"), z3.IntSort())
     n = K.len(r.term)
-    # every element stems from some binding; every binding that passes the filters is present
-    st.assume(z3.ForAll([q], z3.Implies(z3.And(0 <= q, q < n),
-                                        z3.Exists(bound, z3.And(guard, elt.term == K.at(r.term, q)))), patterns=[K.at(r.term, q)]))
-    pos = z3.Function(fresh_name("comppos"), *[b.sort() for b in bound], z3.IntSort())
-    st.assume(z3.ForAll(bound, z3.Implies(guard, z3.And(0 <= pos(*bound), pos(*bound) < n, K.at(r.term, pos(*bound)) == elt.term))))
-    st.assume(n >= 0)
+    st.assume(z3.ForAll([y], K.contains(r.term, y) == z3.Exists(bound, z3.And(guard, elt.term == y)),
+                        patterns=[K.contains(r.term, y)]))
+    st.assume(z3.ForAll(bound, z3.Implies(guard, K.contains(r.term, elt.term))))
     return r
 
 
